@@ -7,7 +7,10 @@ Case (driver "request"):
    "port": 0..65535,                    (CONNECT only; resolve/resolve_ptr take no port)
    "method": 0 | 2 | 255 | ...,         the method byte the server selects
    "mver": 5,                           version byte of the server's method reply (optional, default 5)
-   "msplit": true|false}                deliver the method reply as two 1-byte chunks
+   "msplit": true|false,                deliver the method reply as two 1-byte chunks
+   "tls": false | true | "context"}     (CONNECT only, optional) TorSocksEndpoint(..., tls=True) or
+                                        tls=<a context factory object>; the case then ends once the request is
+                                        decoded (the success reply is never delivered, so no TLS handshake starts)
 
 The request is driven through TorSocksEndpoint(...).connect(factory) / socks.resolve / socks.resolve_ptr
 over the causal fake SOCKS port of vlib/sockspipe.py; everything the client writes is decoded by the
@@ -29,7 +32,8 @@ RULE = ("Targets x ports x request types x server method choice: hostnames of 1.
         "IPv6 literals (random 128-bit values and boundaries, rendered full / zero-compressed / upper-case / with "
         "dotted-quad tail), ports (boundaries + random in quick, all 65536 in thorough for a name, an IPv4 and an "
         "IPv6 target), CONNECT / RESOLVE / RESOLVE_PTR, server selecting method 0 / 2 / 0xFF / other, method reply "
-        "whole or split. Bytes written to the SOCKS transport are decoded by an independent RFC 1928 parser. "
+        "whole or split; CONNECT with tls=False / tls=True / tls=<context factory object> (names in absolute spelling with "
+        "a trailing dot included). Bytes written to the SOCKS transport are decoded by an independent RFC 1928 parser. "
         "Non-trivial = the server selected 'no authentication' and the target is an IPv6 literal, or a name of "
         ">= 200 bytes, or the port's high and low byte differ; distinct = distinct canonical JSON of the case.")
 ASSUMPTIONS = [
@@ -45,6 +49,11 @@ ASSUMPTIONS = [
     "exact literal text (ATYP 3); RESOLVE_PTR of a name may be refused or sent as that name",
     "the port field of RESOLVE / RESOLVE_PTR requests is not constrained (Tor ignores it; the API takes no port)",
     "for RESOLVE_PTR, names that libc's inet_aton would accept as an address ('1.2.3', '0x7f.1') are excluded",
+    "the tls argument of TorSocksEndpoint must not change the request; TLS cases end once the request is decoded "
+    "(the success reply is not delivered, so no handshake starts); what happens after success under TLS is out "
+    "of scope; tls=True needs pyOpenSSL + service_identity (present here; otherwise those cases are counted as "
+    "excluded); a name that twisted's optionsForClientTLS itself rejects before anything is connected (IDNA: "
+    "'_', leading '-', > 253 bytes) is counted as excluded for tls=True, not judged",
     "when the server selects a method other than 0 no request may be written at all (how the attempt then "
     "fails is C05's subject)",
 ]
@@ -98,10 +107,37 @@ def _looks_numeric_to_libc(name):
     return not any(c in "ghijklmnopqrstuvwyz-_" for c in name)
 
 
+_TLS_LIBS = []
+
+
+def _tls_available():
+    """tls=True needs twisted.internet.ssl.optionsForClientTLS, i.e. pyOpenSSL + service_identity (+ idna);
+    all offline.  Checked once per process."""
+    if not _TLS_LIBS:
+        try:
+            import OpenSSL  # noqa: F401
+            import service_identity  # noqa: F401
+            from twisted.internet.ssl import CertificateOptions, optionsForClientTLS
+            optionsForClientTLS(u"example.com")
+            CertificateOptions()
+            _TLS_LIBS.append(True)
+        except Exception:
+            _TLS_LIBS.append(False)
+    return _TLS_LIBS[0]
+
+
 def drive_request(case):
     socks = _socks()
     res = Result()
     req = case["req"]
+    tls = case.get("tls", False) if req == "CONNECT" else False
+    if tls not in (False, True, "context"):
+        raise HarnessError("unknown tls mode %r" % (tls,))
+    if tls:
+        res.label("tls:" + ("True" if tls is True else "context-object"))
+        if not _tls_available():
+            res.excluded.append("tls-libraries-missing")
+            return res
     target = case["target"]
     port = case["port"] if req == "CONNECT" else 0
     method = case["method"]
@@ -124,7 +160,14 @@ def drive_request(case):
     w = None
     try:
         if req == "CONNECT":
-            d = socks.TorSocksEndpoint(pipe.endpoint, target, port).connect(_silent_factory())
+            if tls == "context":
+                from twisted.internet.ssl import CertificateOptions
+                ep = socks.TorSocksEndpoint(pipe.endpoint, target, port, tls=CertificateOptions())
+            elif tls:
+                ep = socks.TorSocksEndpoint(pipe.endpoint, target, port, tls=True)
+            else:
+                ep = socks.TorSocksEndpoint(pipe.endpoint, target, port)
+            d = ep.connect(_silent_factory())
         elif req == "RESOLVE":
             d = socks.resolve(pipe.endpoint, target)
         else:
@@ -143,6 +186,12 @@ def drive_request(case):
     if refused_early:
         if tclass == "unencodable" or (req == "RESOLVE_PTR" and tclass == "name"):
             res.label("refused-before-connecting")
+            return finish()
+        if tls is True:
+            # tls=True derives certificate-verification options from the host name before anything is
+            # connected; names that are not valid for that (IDNA: '_', leading '-', > 253 bytes ...) end here.
+            # What TLS accepts is outside this property: counted, not judged.
+            res.excluded.append("tls-setup-refused-the-name-before-connecting")
             return finish()
         res.bad("encodable-target-refused", "%s %r port %d refused before connecting: %r" % (
             req, target, port, sync_error or w.outcome()))
@@ -176,24 +225,24 @@ def drive_request(case):
         if after_method:
             res.bad("request-after-method-reply-with-wrong-version",
                     "server answered %02x %02x, client wrote %s" % (mver, method, after_method.hex()))
-        return _tail(res, pipe, w, g, after_method, req, target, expect_error=None)
+        return _tail(res, pipe, w, g, after_method, req, target, expect_error=None, deliver=not tls)
     if method != ref.NO_AUTH:
         if after_method:
             res.bad("request-after-method-%02x-selected" % method if method in (2, 255) else
                     "request-after-other-method-selected",
                     "server selected method 0x%02x, client wrote %s" % (method, after_method.hex()))
-        return _tail(res, pipe, w, g, after_method, req, target, expect_error=None)
+        return _tail(res, pipe, w, g, after_method, req, target, expect_error=None, deliver=not tls)
 
     if not encodable:
         if after_method:
             res.bad("unencodable-target-sent" + ("-resolve-utf8" if _is_utf8_resolve(req, target, after_method) else ""),
                     "%s of %r (%s) wrote request bytes %s" % (req, target, tval, after_method[:40].hex()))
             return finish()
-        return _tail(res, pipe, w, g, after_method, req, target, expect_error=True)
+        return _tail(res, pipe, w, g, after_method, req, target, expect_error=True, deliver=not tls)
 
     if req == "RESOLVE_PTR" and tclass == "name" and not after_method:
         res.label("ptr-name-refused")
-        return _tail(res, pipe, w, g, after_method, req, target, expect_error=True)
+        return _tail(res, pipe, w, g, after_method, req, target, expect_error=True, deliver=not tls)
 
     try:
         r = ref.decode_request(after_method)
@@ -233,7 +282,7 @@ def drive_request(case):
     if req == "CONNECT" and r["port"] != port:
         res.bad("wrong-port", "CONNECT port %d (0x%04x): request carries %d (0x%04x)" % (
             port, port, r["port"], r["port"]))
-    return _tail(res, pipe, w, g, after_method, req, target, expect_error=None)
+    return _tail(res, pipe, w, g, after_method, req, target, expect_error=None, deliver=not tls)
 
 
 def _is_utf8_resolve(req, target, after):
@@ -244,10 +293,11 @@ def _is_utf8_resolve(req, target, after):
     return req == "RESOLVE" and len(raw) <= 255 and raw in after
 
 
-def _tail(res, pipe, w, g, after_method, req, target, expect_error):
-    """deliver whatever the server has to say, hang up, and require that the SOCKS layer wrote nothing more"""
+def _tail(res, pipe, w, g, after_method, req, target, expect_error, deliver=True):
+    """deliver whatever the server has to say (not for TLS cases: a delivered success reply would start the
+    TLS handshake on this transport), hang up, and require that the SOCKS layer wrote nothing more"""
     guard = 0
-    while pipe.pending and not pipe.lost and guard < 4:
+    while deliver and pipe.pending and not pipe.lost and guard < 4:
         pipe.deliver(None)
         guard += 1
     pipe.lose()
@@ -308,7 +358,10 @@ def names():
                       st.one_of(st.sampled_from([1, 2, 63, 64, 127, 128, 199, 200, 252, 253, 254, 255]),
                                 st.integers(1, 255)),
                       st.text(alphabet="abcdefghijklmnopqrstuvwyz", min_size=1, max_size=5))
-    return st.one_of(short, realistic, sized)
+    base = st.one_of(short, realistic, sized)
+    # absolute spelling: the root label's trailing dot is part of the name the caller asked for
+    return st.builds(lambda n, dot: n + "." if dot and len(n) < 255 and not n.endswith(".") else n,
+                     base, st.sampled_from([False, False, True]))
 
 
 def overlong_names():
@@ -402,15 +455,17 @@ def mvers():
 
 
 def cases():
-    return st.builds(lambda r, t, p, m, v, s: {"req": r, "target": t, "port": p, "method": m, "mver": v, "msplit": s},
+    return st.builds(lambda r, t, p, m, v, s, tls: {"req": r, "target": t, "port": p, "method": m, "mver": v,
+                                                    "msplit": s, "tls": tls if r == "CONNECT" else False},
                      st.sampled_from(["CONNECT", "CONNECT", "RESOLVE", "RESOLVE_PTR"]),
-                     targets(), ports(), methods(), mvers(), st.booleans())
+                     targets(), ports(), methods(), mvers(), st.booleans(),
+                     st.sampled_from([False, False, True, True, "context"]))
 
 
 # --------------------------------------------------------------------------- explicit enumerations
 
-def _case(req, target, port=0, method=0, msplit=False):
-    return {"req": req, "target": target, "port": port, "method": method, "msplit": msplit}
+def _case(req, target, port=0, method=0, msplit=False, tls=False):
+    return {"req": req, "target": target, "port": port, "method": method, "msplit": msplit, "tls": tls}
 
 
 def all_ports_cases(targets_):
@@ -450,6 +505,20 @@ def boundary_cases():
                 yield c
 
 
+def tls_cases():
+    """the request must not depend on the tls argument: same targets with tls False / True / context object"""
+    names_ = ["example.com", "example.com.", "www.example.com.", "torproject.org.", "a.", "x.y.z.",
+              "timaq4ygg2iegci7.onion", "timaq4ygg2iegci7.onion.", name_of_len(199, "k") + ".",
+              name_of_len(252, "k") + ".", name_of_len(253, "k"), name_of_len(254, "k") + ".",
+              name_of_len(255, "k"), name_of_len(256, "k"), "exämple.com.", "1.2.3.4", "255.255.255.255",
+              "2001:db8::ff00:42:8329", "::1", "_dmarc.example.org.", "-x.example."]
+    for t in names_:
+        for tls in (False, True, "context"):
+            for p in (0, 443, 0x1234, 65535):
+                yield _case("CONNECT", t, p, 0, tls=tls)
+            yield _case("CONNECT", t, 443, 2, msplit=True, tls=tls)
+
+
 DRIVERS = {"request": drive}
 
 MANIFEST = {
@@ -470,6 +539,7 @@ MANIFEST = {
 def run(ctx):
     ctx.search("request", cases(), quick=4000, thorough=30000)
     ctx.enumerate("request", boundary_cases(), name="boundary-targets-x-methods")
+    ctx.enumerate("request", tls_cases(), name="targets-x-tls-modes")
     if ctx.quick():
         ctx.enumerate("request", port_sample_cases(), name="port-sample", exhaustive=False)
         ctx.enumerate("request", every_name_length_cases(step=7), name="name-lengths-sample", exhaustive=False)
@@ -507,6 +577,19 @@ MUTANTS = [
     ("request-written-twice", _F,
      "        return self._dispatch[self._req_type](self)",
      "        self._dispatch[self._req_type](self)\n        return self._dispatch[self._req_type](self)"),
+    # the tls argument must not change the request
+    ("tls-true-strips-root-dot-from-target", _F,
+     "                context = optionsForClientTLS(self._host)",
+     "                self._host = self._host.rstrip('.')\n                context = optionsForClientTLS(self._host)"),
+    ("tls-any-mode-strips-root-dot-from-target", _F,
+     "                self._host, self._port, 'CONNECT', tls_factory,",
+     "                self._host.rstrip('.'), self._port, 'CONNECT', tls_factory,"),
+    ("tls-port-0-becomes-443", _F,
+     "                self._host, self._port, 'CONNECT', tls_factory,",
+     "                self._host, self._port or 443, 'CONNECT', tls_factory,"),
+    ("tls-context-object-truncates-target-to-254", _F,
+     "                context = self._tls\n",
+     "                context = self._tls\n                self._host = self._host[:254]\n"),
     # resolve forms
     ("resolve-ptr-address-reversed", _F,
      "encoded_host = inet_aton(self._addr.host)", "encoded_host = inet_aton(self._addr.host)[::-1]"),
